@@ -37,6 +37,13 @@ def run(ctx):
     ctx.do(rule_granularity)
     ctx.do(rule_strict_compare)
     ctx.do(rule_clock)
+    # "strictly newer" compares instants: no re-labelling of time zones on the way (C15.utc clause)
+    from . import C15
+    ctx.do(C15.rule_no_relabel, rule_id="C05.instants-not-relabelled")
+    # the object (or dict) a new version is derived from is left exactly as it was: effect analysis of C13 over the versioning
+    # and marking entry points
+    from . import C13
+    ctx.do(C13.rule_no_param_mutation, rule_id="C05.previous-version-untouched", modules=("stix2.versioning", "stix2.markings.granular_markings", "stix2.markings.object_markings", "stix2.markings.utils", "stix2.markings"), floor=20)
     from .hidden_state import rule_no_hidden_state
     ctx.do(rule_no_hidden_state, "C05.history-independence")
 
